@@ -243,8 +243,8 @@ def run_bounds(ctx, spec):
         case = {'clause': 'bounds', 't': t, 'p': p}
         with ctx.guard(case) as g:
             psat = T.sat(t) if 0.01 <= t <= 500.0 else None
-            rc = T.cowat(t, p, bounds=True)
-            rs = T.supst(t, p, bounds=True)
+            rc = checked_in_any_order(ctx, T.cowat, (t, p), case, 'cowat')
+            rs = checked_in_any_order(ctx, T.supst, (t, p), case, 'supst')
             rc0 = T.cowat(t, p) if 0.01 <= t <= 350 else None
         if g.raised is not None:
             continue
@@ -276,7 +276,7 @@ def run_bounds(ctx, spec):
     for t in lin(-1.0, 380.0, int(400 / spec['f'])) + [0.01 - 1e-9, 0.01 + 1e-9, TC1_C - 1e-9, TC1_C + 1e-9]:
         case = {'clause': 'bounds sat', 't': t}
         with ctx.guard(case) as g:
-            r = T.sat(t, bounds=True)
+            r = checked_in_any_order(ctx, T.sat, (t,), case, 'sat')
         if g.raised is not None:
             continue
         ctx.evaluated()
@@ -285,10 +285,11 @@ def run_bounds(ctx, spec):
         if (r is not None) != inside:
             ctx.violation('bounds:sat', 'sat(%r, bounds=True) = %r' % (t, r), case)
     plo = T.sat(0.01)
-    for p in [plo * (1 - 1e-9), plo * (1 + 1e-9), PC1 * (1 - 1e-9), PC1 * (1 + 1e-9), 100.0, 1e5, 1e7, 3e7]:
+    for p in [plo * (1 - 1e-9), plo * (1 + 1e-9), PC1 * (1 - 1e-9), PC1 * (1 + 1e-9), 100.0, 1e5, 1e7, 3e7, 2.3e7, 5e7, 9e7] + \
+            [ctx.rng.uniform(PC1 * 1.001, 1.0e8) for _ in range(20)]:
         case = {'clause': 'bounds tsat', 'p': p}
         with ctx.guard(case) as g:
-            r = T.tsat(p, bounds=True)
+            r = checked_in_any_order(ctx, T.tsat, (p,), case, 'tsat')
         if g.raised is not None:
             continue
         ctx.evaluated()
@@ -330,6 +331,24 @@ def run_classifiers(ctx, spec):
         if a != b:
             ctx.violation('classifiers-disagree:%s' % ('below-350' if t < 350 else 'above-critical'),
                           't2thermo.region(%r, %r) = %r, IAPWS97.region = %r' % (t, p, a, b), case)
+
+
+def checked_in_any_order(ctx, f, args, case, name):
+    """The range-checked answer must not depend on what was asked before: checked, unchecked (whatever that does
+    outside the range, including raising), checked again.  Returns the checked answer."""
+    first = f(*args, bounds=True)
+    try:
+        f(*args)
+    except Exception:
+        pass
+    second = f(*args, bounds=True)
+    ctx.count('checked_after_unchecked')
+    a = None if first is None else (tuple(first) if isinstance(first, (tuple, list)) else first)
+    b = None if second is None else (tuple(second) if isinstance(second, (tuple, list)) else second)
+    if a != b and not (a != a and b != b):
+        ctx.violation('bounds:%s:depends-on-earlier-unchecked-call' % name,
+                      '%s%r with bounds=True gave %r, and %r after the same call without range checking' % (name, tuple(args), first, second), case)
+    return second
 
 
 def run_ssf(ctx, spec):
